@@ -28,6 +28,9 @@ func TestCheck(t *testing.T) {
 		if i%16 == 8 {
 			manyListsLeg(run, i)
 		}
+		if i%64 == 32 {
+			socketLeg(run, i)
+		}
 		if i%16 == 0 {
 			ConcurrentCase(run, i, i%32 == 0)
 		}
